@@ -60,6 +60,8 @@ type Cfg struct {
 	Values    int // number of distinct value indices (default 1)
 	MaxBatch  int // max batch creation count (default 2)
 	Prefer    func(f *wx.Failure) bool // which failure to report when several oracles fire on the same state
+	// PreloadDump, if set, provides an entity dump that is loaded into the fresh world before the history starts.
+	PreloadDump func() *ecs.EntityDump
 }
 
 // Name implements wx.Scenario.
